@@ -130,8 +130,8 @@ def gen_op(rnd, vals, name, out_name, in_names, pool, n_state_extra=None, alg_ou
 WEIGHTS = ['one', 'uniq', 'uniq', 'uniq', 'neg', 'tiny', 'int', 'nano']
 
 
-def gen_weight(rnd, vals):
-    k = rnd.choice(WEIGHTS)
+def gen_weight(rnd, vals, kind=None):
+    k = kind or rnd.choice(WEIGHTS)
     if k == 'one':
         return 1.0
     if k == 'neg':
